@@ -221,7 +221,8 @@ func (t CollectionPath) ofObject(ob *Object) Item {
 	case Replies:
 		it = ob.Replies
 	}
-	if it == nil {
+	if IsNil(it) {
+		// a nil pointer or an empty IRI is no collection
 		it = t.ofIRI(ob.ID)
 	}
 	return it
@@ -240,7 +241,7 @@ func (t CollectionPath) ofActor(a *Actor) Item {
 	case Followers:
 		it = a.Followers
 	}
-	if it == nil {
+	if IsNil(it) {
 		it = t.ofIRI(a.ID)
 	}
 	return it
@@ -273,12 +274,14 @@ func (t CollectionPath) Of(i Item) Item {
 		return it
 	}
 	it := t.ofIRI(i.GetLink())
-	if OfActor.Contains(t) && (ActorTypes.Contains(i.GetType()) || i.GetType() == ActorType) {
-		OnActor(i, func(a *Actor) error {
+	if OfActor.Contains(t) {
+		// whatever its type name says (or does not say yet), a value that has the actor's collections is asked for them
+		if err := OnActor(i, func(a *Actor) error {
 			it = t.ofActor(a)
 			return nil
-		})
-		return it
+		}); err == nil {
+			return it
+		}
 	}
 	OnObject(i, func(o *Object) error {
 		it = t.ofObject(o)
